@@ -80,7 +80,7 @@ def gen_literal(rng, d, c):
         if r2 < 0.85:
             return ('num', rng.choice(['0', '1', '42', '007', '00', '123456789012345678901234567890']))
         if r2 < 0.93:
-            return V(rng.choice(['X', 'Y', 'Zed', '_Under']))
+            return V(rng.choice(['X', 'Y', 'Zed', '_Under', '_1', '_2', '_3', '_4', 'X1', '_G1']))
         return V('_')
     if r < 0.65:
         n = rng.choice([1, 2, 3])
